@@ -120,6 +120,16 @@ class Check:
     # ------------------------------------------------------------------ finish
     def finish(self) -> int:
         wall = time.time() - self.t0
+        if getattr(self, "replay_mode", False):
+            for v in self.violations:
+                print(f"VIOLATION property={self.pid} replay={self.replay_path}")
+                print(f"  signature={v['signature']} {v['what']}")
+            tlc.cleanup_scratch()
+            if self.failures:
+                print("replay: machinery failure:", self.failures[0][:300])
+                return 2
+            print(f"replay: {'still violated' if self.violations else 'not reproduced on this tree'}")
+            return 1 if self.violations else 0
         EVIDENCE.mkdir(exist_ok=True)
         rdir = REPLAYS / self.pid
         lines = []
@@ -191,6 +201,8 @@ def main_wrapper(fn, pid: str):
             rest.append(argv[i])
         i += 1
     chk = Check(pid, tier)
+    chk.replay_mode = replay is not None
+    chk.replay_path = replay
     try:
         fn(chk, replay)
     except MachineryFailure as ex:
@@ -204,15 +216,30 @@ def main_wrapper(fn, pid: str):
 
 
 def replay_generic(chk: Check, path: str):
-    """Re-run one recorded violation: the replay file carries the model text / expression text."""
+    """Re-run one recorded violation against the current tree.  Replay files of the expression corpus carry the
+    case (tokens, reference values, input points), those of the model corpora the model record; they are executed
+    again and the violation is reported again if it is still there.  Other kinds are printed for manual replay."""
     d = json.load(open(path))
     det = d.get("detail", {})
     print(f"replay of {d.get('signature')}")
     print(d.get("what", ""))
+    if det.get("case") and det.get("envs"):
+        from . import exprcorpus
+        stats, bad = exprcorpus.replay([det["case"]], det["envs"], det["backend"], nproc=1, styles=(det.get("style", "tmin"),))
+        print("re-executed expression case:", {k: stats[k] for k in ("points_compared", "errors", "mismatches")})
+        for b in bad:
+            chk.violation(d.get("signature"), b, d.get("what", ""))
+        return
+    if det.get("rec"):
+        from . import modelcase
+        ru = (det.get("remove_unused"),) if det.get("remove_unused") in (True, False) else (False, True)
+        stats, bad = modelcase.check_model_case(det["rec"], det.get("backend", "numpy"), remove_unused=ru)
+        print("re-executed model case:", stats, "mismatches:", len(bad))
+        for b in bad:
+            if b["tag"] == det.get("tag") or det.get("tag") == "remove_unused":
+                chk.violation(d.get("signature"), {k: v for k, v in b.items() if k != "rec"}, d.get("what", ""))
+        return
     text = det.get("text")
     if text:
-        print("---- model / expression text ----")
+        print("---- model / expression text (manual replay) ----")
         print(text)
-    chk.states = chk.transitions = 1
-    chk.sample({"replayed": path, "signature": d.get("signature")})
-    chk.extra["explanation"] = "single recorded case printed for manual replay"
